@@ -60,7 +60,7 @@ func VerifyFunc(p *Prog, fi *FuncInfo, modeOverride string) *VC {
 	bindP(sig.Recv())
 	if r := sig.Recv(); r != nil {
 		if _, isPtr := r.Type().Underlying().(*types.Pointer); isPtr {
-			if rv, ok := st.vars[r].(Term); ok {
+			if rv, ok := st.vars[r].(Term); ok && !(ct != nil && ct.NilRecv) {
 				// implicit precondition: methods are verified for non-nil receivers (checked at contract call sites)
 				vc.assumeGlobal(Not(Eq(rv, IntLit(0))))
 			}
